@@ -4,6 +4,21 @@
 //
 // Oracle: exact (__int128) point location of child vertices and edge midpoints against parent / sibling
 // polygons, exact shoelace signs, canonical path-set equality. Two clipper objects per output form.
+//
+// Claims (every one a consequence of the property text, premises: exact general-position filter, or rectilinear
+// input on a lattice of pitch >= 2):
+//   C04.paths_equal       canonical PolyTreeToPaths64(tree) == canonical paths solution (also PolyTreeToPaths64 ==
+//                         own traversal of the tree; also PolyTreeToPathsD(treeD) == ClipperD paths solution)
+//   C04.open_equal        the open-path outputs of the two executions are the same multiset
+//   C04.child_in_parent   no vertex / edge midpoint of a child strictly outside its parent polygon (on-boundary allowed)
+//   C04.sibling_disjoint  no vertex / edge midpoint strictly inside a sibling's polygon (on-boundary allowed)
+//   C04.hole_parity       Parent()/Level() agree with the position in the tree, IsHole() == (depth even), exact
+//                         orientation negative iff hole (flipped under ReverseSolution), no zero-area node
+//   C04.area              tree.Area() == Area(paths) == exact shoelace, within 1e-9 * sum|terms| + 1e-6
+//   C04.treeD_shape       PolyTreeD has, node for node, the children and the polygons (times scale, exactly) of the
+//                         PolyTree64 of the input scaled by 2^(ilogb(10^precision)+1); the claims above hold for it
+//   C04.tree_execute_crash  Execute into a PolyTree returns (rectilinear class only: run first in a forked child)
+//   C04.execute_false     Execute returns true
 #include "geom.h"
 #include "gen.h"
 #include "clipper2/clipper.h"
